@@ -97,6 +97,7 @@ type lexer struct {
 	line      int
 	col       int
 	prevCol   int
+	still     bool // a nested lexer is reading the text of an alias
 	pos       ast.Pos
 	last      atomic.Value
 	emitted   bool
@@ -1822,6 +1823,10 @@ func (l *lexer) read() (rune, error) {
 	}
 
 	r, _, err := l.r.ReadRune()
+	if a, ok := l.r.(aliasReader); ok {
+		// the text of an alias has no place in the source
+		l.still = len(a.l.aliases) != 0
+	}
 	switch {
 	case err != nil:
 		l.mu.Lock()
@@ -1832,6 +1837,7 @@ func (l *lexer) read() (rune, error) {
 			l.report(err, false)
 		}
 		l.mu.Unlock()
+	case l.still:
 	case r == '\n':
 		l.prevCol = l.col
 		l.line++
@@ -1849,6 +1855,9 @@ func (l *lexer) unread() {
 	}
 
 	l.r.UnreadRune()
+	if l.still {
+		return
+	}
 	if l.col == 1 {
 		l.line--
 		l.col = l.prevCol
